@@ -29,3 +29,5 @@ def run(prog, rep):
     from ..rules import r_safe as _rs
     _rs.run_stale_size(prog, rep)
     r_flow.run_forward(prog, rep, which=('MultiTag',), mode='list:ndsize_t', rid='R-FORWARD-IDX', floor=4)
+    from ..rules import r_key as _rkx
+    _rkx.run_handles_only(prog, rep)
